@@ -13,7 +13,7 @@ RULE = ("cases: pmt <matches> <txids>: CPartialMerkleTree build + serialize + Ex
         "parameter extremes (1 element, 36000-byte cap, 50-hash cap, tiny fp rates) and deserialized filters (empty, 1 byte, many hashes) "
         "with insert/contains sequences; rolling: CRollingBloomFilter over several generation wraps with queries for recent and old keys; "
         "bitstream: BitStreamWriter/Reader with widths 0..64; golomb: values k*2^P-1, k*2^P, k*2^P+1 for quotients around 0,1,63,64,65,"
-        "127,128,129 and 64-bit extremes; gcs: GCSFilter build/Match/MatchAny for sets of 0..2000 elements (thorough 10000), BIP158 "
+        "127,128,129 and 64-bit extremes; gcs: GCSFilter build/Match/MatchAny for sets of 0..1000 elements (thorough 10000; above 400 elements every (N/200)-th element is queried), BIP158 "
         "parameters and small/large P and M including forced hash collisions. Non-trivial = at least two elements/ops; distinct = distinct lines.")
 ASSUMPTIONS = ["MurmurHash3, SipHash-2-4 and SHA256d are arbitrary functions for the theorems (Section variables); the no-false-negative "
                "theorems need no property of them; the partial-merkle-tree round trip needs the inner-node hash to be injective and the txids distinct",
@@ -206,7 +206,7 @@ def gen_rolling(rng, tier):
         if dsize > 2000 and quick and nel > 200:
             total = nel + 10
         else:
-            total = max(8 * per + 3, 12)
+            total = max(min(8 * per + 3, 450 if quick else 10 ** 9), 12)
         for rep in range(2):
             keys = [rng.randbytes(rng.choice([1, 4, 32])) for _ in range(total)]
             if rep == 1 and total > 4:
@@ -267,7 +267,7 @@ def gen_gcs(rng, tier):
     quick = tier == "quick"
     paramsets = [(19, 784931), (19, 784931), (20, 1 << 20), (1, 2), (1, 3), (0, 1), (0, 3), (2, 1), (8, 300), (8, 1), (16, 65537), (31, 2 ** 31), (32, 2 ** 32 - 1),
                  (32, 2 ** 31), (10, 2 ** 16), (25, 2 ** 25 + 12345)]
-    sizes = [0, 1, 2, 3, 4, 5, 8, 16, 33, 100] + ([300, 2000] if quick else [300, 1000, 2000, 10000])
+    sizes = [0, 1, 2, 3, 4, 5, 8, 16, 33, 100] + ([300, 1000] if quick else [300, 1000, 2000, 10000])
     for (P, M) in paramsets:
         for n in sizes:
             if n > 100 and (P, M) not in ((19, 784931), (20, 1 << 20)): continue
